@@ -34,6 +34,19 @@ func (valdec ptrDecoder) Decode(dec *Decoder, p interface{}, tag byte) {
 		if *ptr != nil {
 			*ptr = nil
 		}
+	case TagRef:
+		// a reference to an object of this very pointer type: alias it, so that
+		// shared and cyclic structures keep their shape instead of being copied
+		// (for a cycle, copied from an object that is still incomplete)
+		o := dec.refer.Read(dec.ReadInt())
+		if reflect.TypeOf(o) == valdec.t.Type1() {
+			*ptr = reflect2.PtrOf(o)
+			return
+		}
+		if *ptr == nil {
+			*ptr = valdec.et.UnsafeNew()
+		}
+		dec.convertReference(o, valdec.et.PackEFace(*ptr))
 	default:
 		if *ptr == nil {
 			*ptr = valdec.et.UnsafeNew()
@@ -91,7 +104,7 @@ func getStructPtrDecoder(t reflect.Type) ValueDecoder {
 
 var ptrDecoderFactories []func(t reflect.Type) ValueDecoder
 
-//nolint
+// nolint
 func init() {
 	ptrDecoderFactories = []func(t reflect.Type) ValueDecoder{
 		reflect.Invalid:       invalidDecoder,
